@@ -58,6 +58,8 @@ FACT_MODULE = {
     "JP.Facts.packageVarWrites_eq": "JP.Props.FactsPatch",
     "JP.Facts.packageVars_eq": "JP.Props.FactsPatch",
     "JP.Facts.safeSet_eq": "JP.Props.FactsCodec",
+    "JP.Facts.streamShape_eq": "JP.Props.FactsCodec",
+    "JP.Facts.tokenStates_eq": "JP.Props.FactsCodec",
     "JP.Facts.scanOpcodes_eq": "JP.Props.FactsCodec",
     "JP.Facts.scanReset_eq": "JP.Props.FactsCodec",
     "JP.Facts.useNumber_eq": "JP.Props.FactsCodec",
@@ -95,7 +97,7 @@ PLAN = {
              "reference merge; non-trivial = C03 predicate ok; distinct = distinct (A, B) text",
     ),
     "C04": dict(
-        streams=[("corpus", 0, 0), ("bytes", 12000, 120000), ("apply", 3000, 30000), ("entry", 2000, 20000), ("decode", 2000, 20000),
+        streams=[("corpus", 0, 0), ("bytes", 12000, 120000), ("apply", 3000, 30000), ("entry", 2000, 20000), ("deep", 0, 0), ("decode", 2000, 20000),
                  ("legacy-bytes", 6000, 60000)],
         theorems=[],
         facts=[F + "validGates_eq", F + "conditions_eq", F + "mergeConditions_eq", F + "codecConditions_eq", F + "legacyConditions_eq"],
@@ -192,7 +194,7 @@ PLAN = {
              "U+2028/9 and new escapes, ApplyIndent compared with the model's Indent of Apply, passing tests removed and bytes compared",
     ),
     "C16": dict(
-        streams=[("corpus", 0, 0), ("scan", 0, 0), ("valid", 12000, 150000), ("entry", 4000, 40000), ("validx", 0, 0, 4)],
+        streams=[("corpus", 0, 0), ("scan", 0, 0), ("valid", 12000, 150000), ("entry", 4000, 40000), ("deep", 0, 0), ("validx", 0, 0, 4)],
         theorems=[],
         facts=[F + "maxNestingDepth_eq", F + "validGates_eq", F + "scanOpcodes_eq", F + "codecConditions_eq"],
         rule="the scanner's whole transition table (31 states x 16 stacks x 256 bytes, dumped by the verif hook) compared row by row with "
@@ -201,12 +203,21 @@ PLAN = {
              "distinct text/row",
     ),
     "C17": dict(
-        streams=[("corpus", 0, 0), ("codec", 12000, 120000), ("std", 6000, 60000), ("e2x", 0, 0)],
+        streams=[("corpus", 0, 0), ("codec", 12000, 120000), ("std", 6000, 60000), ("streamprog", 4000, 60000), ("typed", 6000, 80000), ("e2x", 0, 0)],
         theorems=[],
-        facts=[F + "safeSet_eq", F + "htmlSafeSet_eq", F + "hex_eq", F + "useNumber_eq", F + "codecConditions_eq"],
+        facts=[F + "safeSet_eq", F + "htmlSafeSet_eq", F + "hex_eq", F + "useNumber_eq", F + "codecConditions_eq",
+               F + "tokenStates_eq", F + "streamShape_eq"],
         rule="the embedded codec's Compact/Indent/HTMLEscape/Unmarshal+MarshalEscaped/UnmarshalWithKeys/Marshal(string) on generated and "
              "corrupted texts, compared byte for byte with the model; differential runs against encoding/json on dynamic values, tagged "
-             "structs, Encoder and Decoder streams (STD lines: testing, not proof); non-trivial = C17 predicate ok",
+             "structs, Encoder and Decoder streams (STD lines: testing, not proof); stream `streamprog` (STREAM lines): the real "
+             "Decoder (UseNumber) driven by random programs of Token / More / Decode(into 8 target types) over well-formed value "
+             "sequences, truncated and corrupted ones, through readers with five chunkings, and Encoder.Encode of 1-3 generated Go "
+             "values with both escape settings, prefix and indent, each compared byte for byte with the trace of the stream model "
+             "JP/Codec/Stream.lean; "
+             "stream typed: MarshalEscaped on typed values of "
+             "run-time generated and declared struct types (tags, options, embedding to depth 3, clashing names, integer-keyed maps, "
+             "arrays, []byte, pointers, interfaces; no floats) against the model marshalTyped, and against encoding/json; "
+             "non-trivial = C17 predicate ok",
     ),
     "C18": dict(
         streams=[("legacy-apply", 12000, 120000), ("legacy-bytes", 2000, 20000), ("lindex", 0, 0)],
@@ -270,5 +281,10 @@ BODY_FACTS = {
     "C19": _B("legacy_merge", "legacy_patch"),
     "C20": _B("cmd"),
 }
+# every v5 library property depends on the whole private codec its entry points run through (decode, encode, scanner, indent,
+# tables/fold/tags): a codec edit reaches all of them, whatever file properties.jsonl names as the anchor
+for _pid in ["C%02d" % _i for _i in range(1, 17)]:
+    BODY_FACTS[_pid] = BODY_FACTS[_pid] + [f for f in _B("codec_decode", "codec_encode", "codec_scanner", "codec_indent", "codec_other")
+                                            if f not in BODY_FACTS[_pid]]
 for _pid, _fs in BODY_FACTS.items():
     PLAN[_pid]["facts"] = list(PLAN[_pid].get("facts", [])) + [f for f in _fs if f not in PLAN[_pid].get("facts", [])]
